@@ -122,181 +122,37 @@ PROPS = {
         ],
     },
     "C19": {
-        "units": ["c19_usage"],
-        "level_text": "Every hand-written UsesTypeParams impl of core/src/usage/type_params.rs (Ident, Type, TypePath, Path, PathArguments, GenericArgument, ReturnType, "
-                      "TypeParamBound, WherePredicate, Data, Fields, (), Option<T>, Vec<T>, Punctuated<T,U>), the blanket collect_type_params/_cloned, the trait default "
-                      "uses_type_params_cloned, union_in_place, Options::from/include_type_path_qself and codegen::compute_impl_bounds are proved by Verus on their real bodies "
-                      "(sliced each run, compiled against field-name-compatible mirrors of the syn types) to return exactly the usage oracle written from the statement: "
-                      "leading un-`::`-qualified segment in the set, union over generic arguments, through ref/ptr/slice/array/paren/group/tuple/fn/trait-object/impl-trait, "
-                      "qualified-self only for Purpose::Declare, collection = union of members; a proved lemma family shows every answer is a subset of the queried set. "
-                      "compute_impl_bounds: where-clause, angle tokens, lifetime/const params unchanged, each type param gains exactly the plain trait bound at the end of "
-                      "its bound list iff its ident is in applies_to.",
-        "level_note": "Proof for all mirrored syntax trees, purposes and sets. Generic impls are proved per instantiation the walk uses (Verus rejects the trait-dictionary cycle). "
-                      "The 24 uses_type_params! impls are assumed contract stubs, so recursion through them is by assumption (finite trees). R2 loop rewrites keep closure bodies verbatim; "
-                      "a restructuring refactor of a fold can lose an anchor (exit 2).",
+        "units": ["c19_usage", "c19_lifetimes", "c19_trait_impl"],
+        "level_text": "Type-parameter and lifetime usage analysis (core/src/usage/type_params.rs, lifetimes.rs: every hand-written impl, every uses_type_params!/uses_lifetimes! macro instance "
+                      "(24 + 31, instantiated from macros_public.rs with the invocation's actual field list), Option/Vec/Punctuated impls, the blanket collect_*/_cloned, trait default *_cloned, "
+                      "Options::from/include_type_path_qself) is proved by Verus on the real bodies, incl. termination of the mutual recursion, to return exactly the oracle written from the statement: "
+                      "leading un-`::`-qualified segment / lifetime of a reference, generic argument, lifetime bound or for<..> binder, through ref/ptr/slice/array/paren/group/tuple/fn/trait-object/impl-trait, "
+                      "qualified-self only for Purpose::Declare, collection = union of members; proved lemma families show every answer is a subset of the queried set. "
+                      "TraitImpl::{declared_type_params, used_type_params, type_params_matching, type_params_in_fields} and the codegen::Field/Variant, ast::Data/Fields impls: the bounded parameters are exactly "
+                      "the declared type params used (BoundImpl) by non-skipped fields, for enums by non-skipped fields of non-skipped variants. compute_impl_bounds: where-clause, angle tokens, lifetime/const "
+                      "params unchanged, each type param gains exactly the plain trait bound at the end iff it is in applies_to.",
+        "level_note": "Proof for all mirrored syntax trees, purposes and sets. Generic impls proved per instantiation the walk uses (Verus rejects the trait-dictionary cycle). Filters are generic Fn parameters: "
+                      "contracts quantify over what the filter answered per element (forward direction of closure ensures). R2 loop rewrites keep closure bodies verbatim; removing a `.filter` is translated by an "
+                      "opt fallback; other chain restructurings or replacing a macro invocation by a hand impl lose an anchor (exit 2).",
         "design_ref": "DESIGN.md section 6 C19",
         "assumptions": [
-            "the 24 impls generated by uses_type_params!(Ty, field..) are contract stubs (prelude/usage_macro_stubs.vrs): each returns the named field's answer (rule 1) resp. the union of the fields' answers (rule 2), as the macro text says",
             "syn types are mirrored (prelude/usage_syn.vrs) with exactly the fields the code reads, under syn's names; Punctuated is its value sequence; &Fields iterates its fields in order; enums have exactly the variants the code names (Type: all 15 of syn 2.0), so `_ => panic!` arms are unreachable by construction",
-            "Ident is opaque; == is equality of the abstract value (syn: same text, spans ignored)",
-            "IdentSet/IdentRefSet (FnvHashSet) are opaque with a ghost Set<Ident> view; default/with_capacity_and_hasher = empty, extend = union, insert, contains, iter() yields exactly the members, into_iter().cloned().collect() keeps the members (std HashSet contracts, assumed)",
-            "TypeParamBound::clone yields an equal value (syn derive)",
-            "R2: `.into_iter().fold(init, |state, value| ..)`, `.iter().fold(..)`, `.iter().filter(|v| ..).collect()`, `for p in x.iter_mut()` are replaced by their defining index loops; closure/loop bodies are spliced verbatim",
-            "R15: trait-impl methods are verified as inherent methods of the mirror type, or as methods of a local mirror trait where the receiver is a std type (Option, Vec, (), &Punctuated)",
-            "derive(PartialEq) on Purpose is written out as a structural match and proved equal to ==",
+            "codegen::Field / codegen::Variant are mirrored by the fields read (ty, skip / data, skip); ast::Data, ast::Fields, ast::Style, TraitImpl, Purpose, Options are the real items",
+            "Ident and Lifetime are opaque; == is equality of the abstract value (syn: same text, spans ignored); clone yields an equal value",
+            "IdentSet/IdentRefSet/LifetimeSet/LifetimeRefSet (FnvHashSet) are opaque with a ghost Set view; default/with_capacity_and_hasher = empty, extend = union, insert, contains, iter() yields exactly the members, into_iter().cloned().collect() keeps the members (std HashSet contracts, assumed)",
+            "TypeParamBound::clone yields an equal value (syn derive); Generics::type_params() is modelled by a verified mirror function (the Type entries of params, in order)",
+            "R2: fold / filter-collect / iter_mut / .iter().filter(f) are replaced by their defining index loops (filter calls f once per element, in order); closure and loop bodies are spliced verbatim; Fields::iter() is read as self.fields.iter()",
+            "R8: macro instances are the macro_rules transcriber instantiated with the invocation's arguments ($crate -> crate); R15: trait-impl methods verified as inherent methods or as methods of a mirror trait for std receivers; R1b: `_` parameter named `_p1`",
+            "R4: the two closures of used_type_params get `ensures b == <their own body>`; derive(PartialEq) on Purpose and From<Purpose> for Options are written out as spec twins and proved equal to the real bodies",
+            "the lifetime oracle does not model scopes: a for<'a> binder's own name counts as the code counts it; rustc forbids lifetime shadowing, so it can never be a declared parameter",
         ],
         "not_covered": [
-            "the 24 macro-generated impls (uses_type_params! is defined in macros_public.rs but invoked in usage/type_params.rs; the multi-field rule uses $(..),+): a mutation of an invocation is not detected",
-            "TraitImpl::used_type_params / type_params_matching / type_params_in_fields / declared_type_params (skip filters) - 'used by fields that are actually parsed (not skipped)' is covered only from applies_to onward",
-            "OuterFromImpl::wrap token emission (generics.split_for_impl, quote!) and the FromMeta impl's own bound placement",
-            "UsesTypeParams impls outside usage/: ast::Data<V,F>, ast::Fields<T>, codegen::Field, codegen::Variant, util::Ignored",
-            "usage/lifetimes.rs (UsesLifetimes, CollectLifetimes) entirely; GenericsExt::declared_type_params/declared_lifetimes",
-            "positions the mirrors do not model: the <..> of an associated-type binding or constraint (AssocType.generics: `dyn Tr<Gat<T> = u8>` is answered [] by the real code too - reported as an observation in DESIGN.md), array lengths and const-argument expressions, type macros",
+            "OuterFromImpl::wrap token emission (generics.split_for_impl, quote!) and the FromMeta impl's own bound placement; GenericsExt::declared_lifetimes / declared_type_params",
+            "UsesLifetimes impls outside usage/ (ast::Data/Fields, util::Ignored); UsesTypeParams for util::Ignored",
+            "positions the mirrors do not model: the <..> of an associated-type binding or constraint, array lengths and const-argument expressions, type macros, TypeBareFn's own for<..> binder, TypeParam defaults (observations in DESIGN.md section 8)",
+            "replacing a macro invocation by a hand-written impl, or a field the mirror lacks, is undecided (exit 2), not an alarm",
+            "panic-freedom on syn variants the mirrors do not have (TypeParamBound::Verbatim/PreciseCapture, future #[non_exhaustive] variants)",
         ],
-    },
-    "C15": {
-        "units": ["c15_routing"],
-        "classes": r"postcondition|post-condition of closure|assertion failed",
-        "level_text": "The real default bodies of all ten FromMeta methods are proved (Verus, any implementer, any subset of overrides) against default_ensures in call_ensures form: "
-                      "each item goes by its form alone to exactly one hook (word / split list / bool, string, char literal / literal / expression), groups are looked through, "
-                      "every default hook rejects with the documented kind, and the result is res_with_span(hook result, item span). Nine probe implementers (all, none, each single hook) "
-                      "turn this into concrete facts result == table(item) for every item, incl. groups of any depth by induction; unexpected_lit_type/unexpected_expr_type/"
-                      "unknown_lit_str_value/From<syn::Error> proved on their real bodies.",
-        "level_note": "Routing half only. Token-stream splitting (parse_meta_list, Parse/ToTokens for NestedMeta, round trip) is uninterpreted: not applicable to contracts (syn parser combinators). "
-                      "The 2^7 override subsets are covered by the generic default_ensures; probes guard against vacuity. Termination of from_expr on nested groups not proved.",
-        "design_ref": "DESIGN.md section 6 C15",
-        "assumptions": [
-            "syn mirror (prelude/meta_syn.vrs): variant/field shape of Meta, Expr (40 variants, syn 2.0.119), Lit copied from syn; payloads opaque; spans, LitStr/LitChar::value, clone and parse_meta_list are uninterpreted functions of the node",
-            "R17: Verus rejects a postcondition mentioning its own function, so the recursive Self::from_expr call of the default from_expr is tagged assume(expr_hook_rel(arg, result)) and axiom_expr_hook_rel states that such a result satisfies T::from_expr's postcondition",
-            "#[verifier::exec_allows_no_decreases_clause] on the default from_expr (no decreases for trait default methods in Verus): termination not proved",
-            "R10/R12/R18 A-normalisation: match result and map_err result let-bound with proof hints; &X?[..] -> as_slice; `?` on syn::Result spelled out as match + Error::from (R15 inherent twin of From<syn::Error>)",
-            "R3: closures |e| e.with_span(x) get a type and an ensures that is proved against the closure body",
-            "probe hooks are external_body functions returning uninterpreted h_x::<P>(arg) (test doubles only)",
-        ],
-        "not_covered": ["splitting half of C15 (syn parser / printer): parse_meta_list, Parse/ToTokens for NestedMeta, print-parse round trip", "termination of from_expr"],
-    },
-    "C12": {
-        "units": ["c12_wrappers", "c12_override_expr"],
-        "classes": r"postcondition|post-condition of closure|assertion failed|precondition not satisfied",
-        "level_text": "Every FromMeta method of Option<T>, darling Result<T>, Result<T,Meta>, Box/Rc/Arc/RefCell<T> (macro instances), Override<T>, SpannedValue<T>, WithOriginal<T,Meta>, Flag, (), bool "
-                      "is proved on its real body, for every T and item, in the form exists r0. call_ensures(T::hook, args, r0) && r == wrap(r0) (from_none likewise; SpannedValue span = path | list tokens | value expr; "
-                      "WithOriginal.original == *item; Result never Err). Probe-instantiated checks prove for PAll/PNone that every item form through each wrapper equals wrap(what T itself returns), and the absent-item behaviour of all wrappers.",
-        "level_note": "Override<T> for name=value items is its own obligation (unit c12_override_expr): it failed on the pinned tree (F2) and holds since fix commit b99d737. "
-                      "SpannedValue adds the item's span to a spanless error of T (as C03 demands); otherwise errors are T's unchanged. IdentString/AtomicBool not included.",
-        "design_ref": "DESIGN.md section 6 C12",
-        "assumptions": [
-            "FromMeta default methods are seen through the default_ensures proved in unit c15_routing (prelude/frommeta_trait.vrs stubs)",
-            "syn mirror and R17 axiom as for C15",
-            "R4: .map(Some/Ok/Box::new/Rc::new/Arc::new/RefCell::new) -> closure with an ensures proved against its body; |_| closures get a named, typed parameter",
-            "Result::or_else contract (std, assumed); str::parse::<bool> modelled by parse_bool: exactly \"true\"/\"false\" (std, assumed)",
-            "RefCell is opaque: RefCell::new(v) == refcell_of(v) (uninterpreted); Box/Rc/Arc use vstd's transparent model (*p == v)",
-            "R8: smart_pointer_t!/with_original! instances are instantiated by tools/extract from darling's own macro_rules",
-        ],
-        "not_covered": ["IdentString, AtomicBool", "SpannedValue/WithOriginal impls of the other From* traits", "Override<T> helper methods (as_ref, unwrap_or, ..)", "two-level compositions beyond Box<Option<_>>"],
-    },
-    "C10": {
-        "exclude_text": r"__live|__armed",
-        "units": ["c10_field_options", "c10_variant_core_options", "c10_receivers", "c10_shape_words", "c06_middleware", "c06_parse_attr", "l2_options_api"],
-        "classes": r"postcondition|invariant|assertion failed|post-condition of closure",
-        "level_text": "Every derive-time option parser of core/src/options (InputField/InputVariant/Core/FromMetaOptions/OuterFrom::parse_nested, from_field/from_variant, Core::start, "
-                      "all validate_body, FromMetaOptions::new, FromAttributesOptions::new, InputVariant::is_unsupported_tuple, DataShape::set_word) is proved on its real body against contracts written from the rule list: "
-                      "accepted => invariant wf() (flatten excludes rename/with/skip/multiple, word only on unit variants, default never Inherit) and exactly the addressed option changed; Err for unknown options, repeated options, "
-                      "map+and_then and each flatten conflict in BOTH textual orders; the flatten arm and every validate_body report ALL offenders: errors grow by exactly the number of violations "
-                      "(>1 flatten, >1 word, word+from_word, from_word on unit/newtype, attrs without forward_attrs, tuple struct / tuple variant whose field count is not one), each at the offending token; "
-                      "FromMetaOptions::new is proved to emit only for representable bodies; exactly the documented shape words are accepted; generic parse_attributes/parse_attr/parse_body carry the invariants for every implementer.",
-        "level_note": "Deductive proof for all inputs of the option layer, modulo opaque syn and uninterpreted option-value conversions (converse only modulo 'every option value converts'). wf() is a parse-time invariant "
-                      "(after with_inherited only wf_codegen()). All obligations discharge on the current tree: former findings F1/F4/F9 are fixed by /repo commits ae776c6 / 5ac3a9a / 5a67c48 and their obligations are in the baseline. "
-                      "Residual false-alarm risk: restructuring a verified loop of validate_body / parse_attr.",
-        "design_ref": "DESIGN.md section 6 C10",
-        "assumptions": [
-            "syn/proc_macro2 nodes opaque; Meta/Attribute/Field/Variant/Fields/Data/DeriveInput mirrored with the fields read; Punctuated mirrored as Vec; spans, path text, ident text are uninterpreted functions of the node; Clone yields an equal value",
-            "path.is_ident(s)/get_ident observe an uninterpreted path_ident(p); Ident == Ident compares ident text (proc_macro2)",
-            "FromMeta conversions of option values (String,bool,Flag,Callable,Path,RenameRule,Vec<WherePredicate>,SpannedValue<T>,PathList,ForwardAttrsFilter) are external functions with uninterpreted results that do not panic; Option<T> and DefaultExpression are proved on their real bodies",
-            "derived Clone/Copy/PartialEq/Default on Flag/SpannedValue/Style/PathList replaced by structural impls; ident_case::RenameRule mirrored, renaming uninterpreted",
-            "R5 match on string literals -> str_eq/opt_str_is chain; str::strip_prefix(p).unwrap_or(s) strips once, str::trim_start_matches strips repeatedly (std documentation; one optional anchor per spelling); set_word's prefix is struct_/enum_ and the word starts with it (call sites)",
-            "R2/R6 iterator chains and for loops -> defining loops; R10 tail expressions let-bound for proof hints; R11 format! texts uninterpreted; R15 trait methods verified in place, parse_attributes as default method of a blanket subtrait; Default::default() -> concrete value",
-            "ForwardedField::from_field, Path::from_expr, Error::unknown_field, NestedMeta::parse_meta_list, From<syn::Error>: external with uninterpreted results; Error/Accumulator callee contracts proved in l1_error_api / c05_accumulator",
-        ],
-        "not_covered": ["InputField::as_codegen_field / InputVariant::as_codegen_variant / From<&Core> for TraitImpl (Cow, parse_quote_spanned)", "FromMetaOptions::from_word (first word variant)",
-                        "FdiOptions/FromFieldOptions/FromVariantOptions/FromTypeParamOptions::new and their supports/forward options", "DeriveInputShapeSet::from_list and DataShape::from_list (empty-prefix entry point of set_word)",
-                        "ForwardedField::parse_nested", "default bodies of ParseData::parse_field/validate_body (parse_variant's default is proved at OuterFrom)",
-                        "'word = false' is counted as a word annotation by the contract, as by the code (over-rejects e.g. two `word = false` variants)"],
-    },
-    "C06": {
-        "units": ["c06_parse_attr", "c06_middleware", "c10_field_options", "c10_variant_core_options", "c10_receivers", "l2_options_api"],
-        "classes": r"precondition not satisfied|assertion failed|postcondition|invariant|unreachable|panic",
-        "level_text": "Every panic!/unreachable!/unwrap in the option layer is kept in the extracted text and proved unreachable: parse_field/parse_variant/parse_body from the body-shape agreement that Core::start establishes and option parsing "
-                      "preserves (also on rejected options), Core::as_codegen_default from 'default is never Inherit' (through the real DefaultExpression::from_meta), get_ident().unwrap() from is_ident. parse_attr is total for every attribute form: "
-                      "a bare word / name-value attribute is diagnosed at its own tokens with the right format name, literal items are never skipped (errors >= number of literals), a token stream that is not an item list is returned as the converted "
-                      "syntax error, and no `?` executes while an accumulator created in the function is live (R13 ghost flag). Every Err of parse_attributes/parse_body/from_field is a bundle of >= 1 diagnostics; "
-                      "FromMetaOptions::new accepts only bodies codegen can represent, so the two codegen tuple panics are unreachable from it.",
-        "level_note": "Covers the option-parsing half of the derives (all six share parse_attributes/parse_attr/parse_body and Core). All obligations discharge on the current tree; former findings F1 (ae776c6) and F4 (5ac3a9a) are fixed and "
-                      "their obligations are in the baseline. Not covered: codegen to_tokens skeleton, 'exactly one impl block', write_errors. syn parsers and option-value converters are assumed not to panic.",
-        "design_ref": "DESIGN.md section 6 C06",
-        "assumptions": ["as C10", "R13: ghost flag set at Error::accumulator(), asserted false at every expanded `?` (drop elaboration of a never-moved local)",
-                        "R18: `E?` on a syn::Result expanded to match + Error::from(e); NestedMeta::parse_meta_list and From<syn::Error> uninterpreted (may fail, may yield literal items)",
-                        "R12: attr.meta.path() == &parse_quote!(darling) -> path.is_ident(\"darling\")"],
-        "not_covered": ["codegen stage (FromMetaImpl/TraitImpl/Variant to_tokens): its tuple panics are excluded only through FromMetaOptions::new's postcondition, the skeleton itself is not under contract",
-                        "FdiOptions/FromFieldOptions/FromVariantOptions/FromTypeParamOptions::new", "DeriveInputShapeSet::from_list segments.first().unwrap()", "derive::* entry points and Error::write_errors"],
-    },
-    "C11": {
-        "units": ["c11_ints", "c11_nonzero", "c11_misc"],
-        "classes": r"postcondition|post-condition of closure|assertion failed|precondition not satisfied",
-        "level_text": "Every instance of from_meta_num! (24 integer targets incl. NonZero) and from_meta_float! (f32, f64), instantiated from darling's own macro_rules on every run, and bool/char/String/PathBuf are proved on their real bodies: "
-                      "from_string(s) == (std_parse::<T>(s) ? Ok(v) : Err(unknown_value(s))); from_value(lit) == Str -> that on the literal's value, Int/Float -> syn's base10_parse verdict through Error::from, any other kind -> unexpected_lit_type, "
-                      "every Err spanned with the literal unless already spanned; char == the single character iff the string has exactly one; bool word == true. Through the trait's default dispatchers (c15_routing) each type's from_meta/from_nested_meta "
-                      "is proved equal to a per-form table (word/list/non-literal expression rejected by form, groups transparent at any depth), and every rejection carries a span.",
-        "level_note": "Delegation proved; numeric semantics (range, radix, underscores, suffix, zero for NonZero, sign) live in std's FromStr and syn's base10_parse and are TRUSTED as uninterpreted functions of exactly the user's text / literal. "
-                      "No trim/cast/wrap/saturate/default can be inserted without breaking an equality. `x = -5` is a unary expression for syn and is rejected by form (documented: negative numbers must be quoted).",
-        "design_ref": "DESIGN.md section 6 C11",
-        "assumptions": [
-            "str::parse::<T> == std_parse::<T>(chars) (assume_specification on the real call), LitInt/LitFloat::base10_parse::<T> == lit_int_parse/lit_float_parse(lit): uninterpreted",
-            "PathBuf opaque: PathBuf::from(&str) == pathbuf_of(chars) (R11 .into() -> .into_pathbuf()); String/chars()/Chars::next via vstd",
-            "FromMeta defaults through default_ensures proved in c15_routing; Error constructors through contracts proved in l1_error_api/c15_routing; syn mirror prelude/meta_syn.vrs; R17 axiom",
-            "R3: |_| .. / |e| e.with_span(value) closures typed with an ensures proved against the closure body; R4: .map_err(Error::from) eta-expanded; R8 macro instantiation",
-            "str::trim given a content-free contract (prelude/std_trim.vrs) only so that trim-inserting edits are decided",
-        ],
-        "not_covered": ["AtomicBool, ident_case::RenameRule", "that quoted and unquoted plain-decimal spellings denote the same value (std vs syn parser agreement: trusted)", "termination of the default from_expr on nested groups (R17)"],
-    },
-    "C13": {
-        "units": ["c13_syn_values", "c13_parse_expr", "c13_parse_expr_agree", "c13_callable_group"],
-        "classes": r"postcondition|post-condition of closure|assertion failed|precondition not satisfied|invariant",
-        "level_text": "syn::Expr, syn::Path, syn::Ident, from_syn_expr_type! x3, from_syn_parse! x18, from_meta_lit! x8 (from_value), syn::Lit, syn::Meta, Vec<WherePredicate>, Punctuated<T,P>, PathList::from_list, Callable::from_expr, IdentString, "
-                      "preserve_str_literal and parse_str_literal are proved on their real bodies: bare form => Ok(the user's node itself); quoted form => Ok(what syn's parser for T makes of exactly that literal / string) or unknown value at the literal; "
-                      "other literal kinds / expression forms => unexpected type, spanned; invisible groups transparent at any depth (decreases proved); PathList keeps every word in order or fails at the first non-word, spanned. "
-                      "Per-form tables through the default dispatchers for Expr/Path/Ident/ExprArray/Type/Visibility/LitInt/Lit/Meta, every rejection spanned. The helper statements differ only for string literals (lemma_helpers_agree).",
-        "level_note": "Token-for-token is equality of the returned node with the user's node (clone == node). syn's grammar is TRUSTED (uninterpreted litstr_parse/syn_parse_str). The helper-agreement obligation (c13_parse_expr_agree, F6) and the group obligation of Callable "
-                      "(c13_callable_group, F10) failed on the pinned tree and hold since fix commits 24bb420 / cab553a.",
-        "design_ref": "DESIGN.md section 6 C13",
-        "assumptions": [
-            "prelude/meta_syn_values.vrs: widened syn mirror (opaque Ident/Type*/Visibility/WherePredicate/Punctuated, ExprPath{path}), Clone == equal node, syn::parse_str / LitStr::parse / parse_terminated / LitStr::new / Path::get_ident uninterpreted",
-            "`::syn::Lit` in signatures resolved by `extern crate self as syn` + module wrap (name resolution only)",
-            "R2 Punctuated.into_iter().collect() -> into_vec() (items in order); R11 format!(\"where {}\", s) -> fmt_where(s) == \"where \" + s; R4 parse_with(Punctuated::parse_terminated) -> parse_terminated(); R3/R8/R15/R6 as elsewhere",
-            "FromMeta defaults / Error constructors through contracts proved in c15_routing / l1_error_api",
-        ],
-        "not_covered": ["Vec<syn::Lit*> (from_list/from_value/from_expr) and from_numeric_array! x5: iterator .map().collect::<Result<Vec<_>>>() chains not rewritten (observation: Vec<u8>::from_expr looks through only one group level per element)",
-                        "bare and quoted spellings give EQUAL values (needs parse(print(x)) == x for syn)", "PathList::new/to_strings, Callable From impls, IdentString::map and its Eq/Hash/Display impls"],
-    },
-    "C14": {
-        "units": ["c14_maps", "c14_key_ident"],
-        "classes": r"postcondition|invariant|post-condition of closure|assertion failed|precondition not satisfied",
-        "level_text": "All five map! instances (HashMap<String|Ident|Path,V,S>, BTreeMap<String|Ident,V>) are proved on the macro's real body, for every V: FromMeta and every item list, against ONE oracle over the item sequence "
-                      "(keys_seen/entries/errs after k items): exists vals (V's verdict per named item, via call_ensures) with view(r) == Ok(entries(n)) iff errs(n)==[] else Err(e_multiple(errs(n))), and Ok => exactly n entries; "
-                      "errs has one leaf per literal item (at the literal), per repeated occurrence (at that occurrence's path), per unconvertible key (+ its value's error) and per unconvertible value located at(path text); first occurrence wins, "
-                      "keys with failed values still count as seen. lemma_success_iff: Ok <=> all named, keys convert and are pairwise distinct, values convert. With the deterministic probe PAll, hash and ordered maps are proved to return equal views/errors on every list. "
-                      "KeyFromPath for String/Path/Ident and Error::at_path on their real bodies (Ident: exactly one segment, no leading ::, no arguments; else custom error at the path).",
-        "level_note": "Hash instances hold under builds_valid_hashers::<S>() (hypothesis). The literal-item leaf is located at the literal since fix commit 1784754 (F11). "
-                      "In c14_maps the Ident key conversion is an arbitrary function of the (opaque) path; the real one is proved in c14_key_ident against a structural Path mirror.",
-        "design_ref": "DESIGN.md section 6 C14",
-        "assumptions": [
-            "String / mirrored Ident / mirrored Path are lawful keys: obeys_key_model, key_obeys_cmp_spec (axiom fns in prelude/c14_std.vrs, c14_keys.vrs); vstd contracts of HashSet/HashMap/BTreeMap/Cow",
-            "HashMap::with_capacity_and_hasher returns an empty map (assume_specification); &Cow<str> as &str keeps the text (cow_as_str, R11)",
-            "util::path_to_string is a function of the path (path_str uninterpreted); Clone of Path/Ident yields an equal value; syn mirror as for C15",
-            "R8: rule 3 of map! is instantiated by tools/extract; the constructor expression of rules 1/2 is transcribed in the template head (not sliced)",
-            "R2: nested.iter().map(closure) + for -> as_pair_fn(closure) + index while calling it per item in order; R3/R10 closure headers and let-bound from_meta call; R14 syn::Ident -> Ident",
-            "Accumulator / Error / FromMeta defaults seen through contracts proved in c05_accumulator, l1_error_api, c15_routing",
-        ],
-        "not_covered": ["util::path_to_string body", "value types beyond generic V + probe PAll (nested maps follow from genericity)", "HashMap/BTreeMap from_meta routing into from_list (C15 default)", "constructor expressions in map! rules 1/2"],
     },
     "C07": {
         "ignore_tags": True,
